@@ -467,6 +467,8 @@ func c19Ops(rich bool) []HOp {
 		HOp{Kind: "remove", Path: "d"}, HOp{Kind: "chmod", Path: "d", Perm: 0711},
 		HOp{Kind: "rename", Path: "a", To: "b"}, HOp{Kind: "rename", Path: "b", To: "a"}, HOp{Kind: "rename", Path: "a", To: "c"},
 		HOp{Kind: "rename", Path: "d", To: "e"}, HOp{Kind: "rename", Path: "d/a", To: "b"}, HOp{Kind: "close"},
+		// renames the host refuses (a file onto a directory, a directory onto a file): the fid must keep naming the old file
+		HOp{Kind: "rename", Path: "a", To: "d"}, HOp{Kind: "rename", Path: "d", To: "a"},
 		// several changes in one wstat (mode 0: unchanged; length -1: unchanged; name "": unchanged)
 		HOp{Kind: "wstat", Path: "a", Perm: 0600, Off: 2, To: "c"}, HOp{Kind: "wstat", Path: "a", Off: 0, To: "b"},
 		HOp{Kind: "wstat", Path: "a", Perm: 0755, Off: 7}, HOp{Kind: "wstat", Path: "b", Perm: 0600, Off: -1, To: "a"},
@@ -482,7 +484,7 @@ func c19Ops(rich bool) []HOp {
 
 func c19(c *core.Ctx) {
 	c.Budget(100*time.Second, 12*time.Minute)
-	c.SetRule("breadth-first search over histories of create (perm x mode incl. OTRUNC) / mkdir / open (4-7 modes) / read+write through the open fid at offsets {0,1,3,6} x lengths {0,1,5} / close / truncate / chmod / rename / several of these in one wstat / remove on paths {a, b, d, d/a} through a real ufs session on a private temp tree, mirrored step by step on a twin directory with the equivalent direct OS calls from an independent 9P->host table; after every step: both agree on success, data read through the fid equals the twin's, the exported tree equals the twin (names, types, permission bits, contents), and listings, stats and contents obtained through freshly walked fids equal the host's own view of the export (incl. whole-second mtime); states with equal twin tree + open fid are merged")
+	c.SetRule("breadth-first search over histories of create (perm x mode incl. OTRUNC) / mkdir / open (4-7 modes) / read+write through the open fid at offsets {0,1,3,6} x lengths {0,1,5} / close / truncate / chmod / rename / several of these in one wstat / remove on paths {a, b, d, d/a} through a real ufs session on a private temp tree, (every explored history is followed, on its discarded instance, by probe requests through the live fid: chmod, read, truncate) mirrored step by step on a twin directory with the equivalent direct OS calls from an independent 9P->host table; after every step: both agree on success, data read through the fid equals the twin's, the exported tree equals the twin (names, types, permission bits, contents), and listings, stats and contents obtained through freshly walked fids equal the host's own view of the export (incl. whole-second mtime); states with equal twin tree + open fid are merged")
 	c.Assume("runs as root on tmpfs (no permission denials); both trees live in the same process (same umask)", "one live fid per renamed/removed file; renaming a directory above the open file is outside the statement")
 	ops := c19Ops(!c.Quick())
 	depth := 5
@@ -535,6 +537,34 @@ func c19(c *core.Ctx) {
 				res.Findings = append(res.Findings, explore.Finding{Sig: "C19:mirror:" + k, Msg: d + "\nhistory: " + hs()})
 			}
 			res.Key = r.key()
+			// Probe: histories are merged by the observable state (tree, open
+			// file), which cannot see what the server remembers about a fid
+			// (its path). On this instance, which is discarded anyway, the
+			// live fid is therefore used once more for path-based requests.
+			if len(res.Findings) == 0 && r.openPath != "" && len(hist) > 0 {
+				for _, po := range []HOp{{Kind: "chmod", Path: r.openPath, Perm: 0640}, {Kind: "read", Off: 0, N: 5}, {Kind: "truncate", Path: r.openPath, Off: 1}} {
+					if po.Kind == "truncate" && r.openMode&3 == p9p.OREAD {
+						continue // (the open mode does not matter for wstat, but keep the probe within what the alphabet does)
+					}
+					var mm string
+					var skip bool
+					if p := catch(func() { mm, skip = r.do(po) }); p != "" {
+						res.Findings = append(res.Findings, explore.Finding{Sig: "C19:panic:" + po.Kind, Msg: fmt.Sprintf("%s panicked: %s\nhistory: %s; (probe) %s", po, p, hs(), po)})
+						break
+					}
+					if skip {
+						continue
+					}
+					if mm != "" {
+						res.Findings = append(res.Findings, explore.Finding{Sig: "C19:result:" + po.Kind, Msg: mm + "\nhistory: " + hs() + "; (probe) " + po.String()})
+						break
+					}
+					if d := r.observe(); d != "" {
+						res.Findings = append(res.Findings, explore.Finding{Sig: "C19:mirror:" + po.Kind, Msg: d + "\nhistory: " + hs() + "; (probe) " + po.String()})
+						break
+					}
+				}
+			}
 			if len(res.Findings) > 0 {
 				res.Dead = true
 			}
